@@ -36,7 +36,7 @@ def tla_set(xs):
 def gen_cfg(ctx, name, pset, sks, hzs, blen, randomized, qset=(0,), wset=(0,)):
     p = ctx.path(name)
     open(p, "w").write(
-        "SPECIFICATION Spec\nCONSTANTS\n"
+        "SPECIFICATION Spec\nCONSTANTS\n  JAnn = {TRUE, FALSE}\n"
         f"  PSet = {tla_set(pset)}\n  QSet = {tla_set(qset)}\n  WSet = {tla_set(wset)}\n  Skeletons = {tla_set(sks)}\n  Hazards = {tla_set(hzs)}\n"
         f"  BlockLen = {blen}\n  Randomized = {'TRUE' if randomized else 'FALSE'}\n"
         "INVARIANTS WellDefined Export\n")
@@ -257,6 +257,9 @@ def leg2(ctx, bdir):
         # that are read only in the loop header
         ("hdr", [66, 72, 90, 110, 130], 4, 12 if q else 120, (0,), (0, 4), ["hdrloop"]),
         ("hi", [70, 85, 100, 130], 4, 16 if q else 150, (0,), (0,), LOOP_SK + ["diamond", "jtab"]),
+        # indirect jumps in every operand shape (jmp r / [b] / [b+i*W] / [b+i*W+d] / [label+i*W] / table on the stack),
+        # annotated and not; base and index are distinct long-lived registers
+        ("jt", [3, 5, 8, 12, 15, 20, 30, 40], 4, 28 if q else 400, (0,), (0, 4), ["jtab", "jtabloop"]),
     ]
     if not q:
         plan.append(("vhi", [48, 64, 96, 160, 200], 6, 120, (0, 24), (0, 6), ALL_SK))
@@ -396,6 +399,8 @@ def tv_single(ctx, exe, arch, prog_rec, tag):
     pp = ctx.path(f"{tag}.prog.ndjson")
     vlib.write_ndjson(pp, [dict({k: prog_rec[k] for k in ("id", "meta", "prog", "inputs")}, tv_arch=arch)])
     fns, why, n = record_and_translate(ctx, exe, arch, pp, tag)
+    if why.get("CRASH"):
+        return False, pp          # the allocator crashed on it
     if not fns:
         return None, pp
     tp = ctx.path(f"{tag}.tv.ndjson")
@@ -415,8 +420,7 @@ def leg1(ctx, bdir, progs):
     vlib.write_ndjson(pp32, [p for p in progs if all(x == 0 for x in p["meta"][3:5])])     # no xmm, no 64-bit registers
     for arch in ARCHS:
         fns, why, n = record_and_translate(ctx, exe, arch, pp32 if arch == "x86" else pp, "leg1")
-        if why.get("CRASH"):
-            raise Broken(f"{arch}: the allocator crashed on Leg-2 programs {why['CRASH'][:5]} (see leg1_rec_{arch}.ndjson)")
+        crashed = why.pop("CRASH", [])
         total += len(fns)
         for k, v in why.items():
             unsupported[f"{arch}: {k}"] = unsupported.get(f"{arch}: {k}", 0) + v
@@ -431,8 +435,10 @@ def leg1(ctx, bdir, progs):
             ctx.add_sample({"leg": 1, "arch": arch, "fid": f["fid"], "nloc": f["nloc"], "ops": len(f["code"]), "code_head": f["code"][:5]})
         for f in fns:
             ctx.distinct.add(("leg1", arch, f["fid"], len(f["code"])))
-        rejected += len(rej)
-        remaining = sorted(rej)
+        rejected += len(rej) + len(crashed)
+        if crashed:
+            ctx.log(f"leg 1 {arch}: the allocator CRASHED on {len(crashed)} programs: {crashed[:8]}")
+        remaining = sorted(set(rej) | set(crashed))
         for k in sorted(k for k in ctx.known if k in FIXES):
             if not remaining:
                 break
@@ -441,7 +447,7 @@ def leg1(ctx, bdir, progs):
                 continue
             bp = ctx.path(f"leg1_attr_{arch}_{FIXES[k]['n']}.prog.ndjson")
             vlib.write_ndjson(bp, [byid[i] for i in remaining])
-            vf, _, _ = record_and_translate(ctx, vexe, arch, bp, f"leg1_attr_{FIXES[k]['n']}")
+            vf, vwhy, _ = record_and_translate(ctx, vexe, arch, bp, f"leg1_attr_{FIXES[k]['n']}")
             tp2 = ctx.path(f"leg1_attr_{arch}_{FIXES[k]['n']}.tv.ndjson")
             vlib.write_ndjson(tp2, vf)
             _, still = judge_tv(ctx, tp2, "report", f"tvattr_{arch}_{FIXES[k]['n']}", workers=4)
@@ -453,6 +459,12 @@ def leg1(ctx, bdir, progs):
             remaining = [i for i in remaining if i not in ok_ids]
         for fid in remaining[:4]:
             rec = byid[fid]
+            if fid in crashed:
+                rp = ctx.path(f"crash_{arch}_{fid}.prog.ndjson")
+                vlib.write_ndjson(rp, [dict({k: rec[k] for k in ("id", "meta", "prog", "inputs")}, tv_arch=arch)])
+                ctx.violation(f"{arch}: the register allocator crashes (or hangs) on program {fid} (skeleton={rec['meta'][0]} pressure={rec['meta'][1]} "
+                              f"mix={rec['meta'][2]}); {len(remaining)} unexplained functions for this architecture", keep(ctx, rp))
+                continue
             ok, rp = tv_single(ctx, exe, arch, rec, f"rej_{arch}_{fid}")
             if ok is not False:
                 raise Broken(f"{arch} function {fid}: rejection not reproducible in isolation")
